@@ -123,6 +123,7 @@ class CamModel:
             evs += [("start", d) for d in (self.first_delays if w.starts == 0 else self.delays)]
         elif self.allow_stop:
             evs.append(("stop",))
+            evs.append(("start", self.delays[0]))       # start while active must be a no-op
         for p in self.periods:
             for kind, arg in self.dyns:
                 if kind in ("h", "s", "p") and getattr(w, kind) == arg:
@@ -398,8 +399,9 @@ def _parts(thorough, seed):
     cam = [
         # label, args(periods, dyns, delays, check_period, allow_stop, gaps, seed, first_delays), depth, split
         ("cam_timing", ([20, 100, 250, 1000], D(none, ["s", 2], ["s", 0]), [0, 50, 99], None, True, [1200], seed), 7 if thorough else 5, 2),
-        ("cam_thresholds", ([100], D(none, *[["h", i] for i in range(5)], *[["s", i] for i in range(4)], *[["p", i] for i in range(4)]),
-                            [0], None, False, [], seed), 6 if thorough else 5, 2),
+        ("cam_thr_heading", ([100], D(none, *[["h", i] for i in range(5)]), [0], None, False, [], seed), 7 if thorough else 6, 2),
+        ("cam_thr_speed", ([100], D(none, *[["s", i] for i in range(4)]), [0], None, False, [], seed), 7 if thorough else 6, 2),
+        ("cam_thr_position", ([100], D(none, *[["p", i] for i in range(4)]), [0], None, False, [], seed), 7 if thorough else 6, 2),
         ("cam_missing", ([100, 1000], D(none, *[["miss", f] for f in MISSABLE], ["s", 2], ["h", 3]), [0], None, True, [], seed),
          6 if thorough else 4, 2),
         ("cam_fast_lf", ([100], D(["s", 2], ["s", 0], none), [0], None, False, [], seed), 14 if thorough else 10, 2),
@@ -407,12 +409,15 @@ def _parts(thorough, seed):
         ("cam_steady", ([1000, 100], D(none), [0], None, False, [], seed, [0]), 400, 1),
     ]
     if thorough:
+        # all three dimensions in one alphabet (cross-dimension histories)
+        cam.append(("cam_thresholds", ([100], D(none, *[["h", i] for i in range(5)], *[["s", i] for i in range(4)], *[["p", i] for i in range(4)]),
+                                       [0], None, False, [], seed), 6, 2))
         cam.append(("cam_check20", ([20, 100], D(none, ["s", 2], ["s", 0]), [0, 19], 20, False, [], seed), 9, 2))
     vam = [
         # label, args(periods, dyns, gaps, clustering, seed), depth, split
         ("vam_timing", ([20, 50, 100, 250, 1000], D(none), [1900, 6000, 65500], False, seed), 8 if thorough else 6, 2),
         ("vam_dynamics", ([20, 100], D(none, ["s", 1], ["s", 2], ["s", 0], ["h", 2], ["h", 3], ["h", 1], ["p", 2], ["p", 0]), [], False, seed),
-         6 if thorough else 5, 2),
+         6 if thorough else 4, 2),
         ("vam_missing", ([20, 100, 1000], D(none, *[["miss", f] for f in MISSABLE]), [], False, seed), 5 if thorough else 4, 1),
         ("vam_idle", ([50, 100, 1000], D(none, ["s", 2], ["s", 0]), [2500], True, seed), 7 if thorough else 6, 2),
         ("vam_steady", ([1000, 100], D(none), [], False, seed), 400, 1),
@@ -429,7 +434,7 @@ def _gdt_lattices(ctx, pool, thorough):
     # (a) every millisecond of one (thorough: two) whole 65 536 ms cycle(s) straddling a wrap x microsecond fractions
     k0 = (F.BASE_MS - F.ITS_EPOCH_MS + F.LEAP_MS) // 65536
     base = F.ITS_EPOCH_MS - F.LEAP_MS + k0 * 65536 - 32768
-    micros = [0, 999] if not thorough else [0, 1, 500, 999]
+    micros = [0] if not thorough else [0, 1, 500, 999]
     span = (2 if thorough else 1) * 65536
     step = 4096
     jobs = [(base + i, base + min(i + step, span), micros) for i in range(0, span, step)]
